@@ -1,10 +1,88 @@
-"""Family programs that pin the constructs behind the findings of the generator exploration (props/gx.py, notes/GX.md)."""
+"""Family programs that pin the constructs behind the findings of the generator exploration (props/gx.py, notes/GX.md,
+known_findings.d/GX.json).  One small program per construct; what each must print is decided by NanoSem."""
 from .nano_ast import *
 from . import families
 
-P = families.prog
+T = families.T
+STRUCTS = [("Point", [("x", "int"), ("y", "int")]), ("Rec", [("tag", "string"), ("n", "int")])]
+ENUMS = [("Color", [("Red", 0), ("Green", 1), ("Blue", 2)]), ("Lvl", [("Low", 10), ("Mid", 20), ("High", 35)])]
+UNIONS = [("Shape", [("Circle", [("r", "int")]), ("Rect", [("w", "int"), ("h", "int")]), ("Empty", [])]),
+          ("Res", [("Ok", [("v", "int"), ("tag", "string")]), ("Bad", [("tag", "string"), ("code", "int"), ("ok", "bool")])])]
+
+
+def P(main_body, extra_funcs=(), globals_=(), structs=(), ret=0):
+    body = list(main_body)
+    if not body or body[-1]["k"] != "ret":
+        body.append(Ret(I(ret)))
+    return Program([T] + list(extra_funcs) + [Func("main", [], "int", body)], structs=STRUCTS + list(structs), enums=ENUMS, unions=UNIONS, globals_=globals_)
+
+
+def pt(x, y): return SLit("Point", [("x", I(x)), ("y", I(y))])
+def its(e): return Call("int_to_string", e)
 
 
 def gx_families():
     out = {}
+    AP, ACOL, TP = "array<Point>", "array<Color>", "(int, string)"
+    # ---- F-gx-native-array-literal-non-scalar: non-empty array literals of enum / struct / array / union elements
+    out["native_array_literal_enum"] = P([Let("cs", ACOL, ALit("Color", [Enum("Color.Red"), Enum("Color.Blue")])), Println(Call("array_length", V("cs"))), Println(Call("at", V("cs"), I(1)))])
+    out["native_array_literal_struct"] = P([Let("ps", AP, ALit("Point", [pt(1, 2), pt(3, 4)])), Let("p", "Point", Call("at", V("ps"), I(1))), Println(Field(V("p"), "y")), Println(Call("array_length", V("ps")))])
+    out["native_array_literal_nested_ragged"] = P([Let("g", "array<array<int>>", ALit("array<int>", [ALit("int", [I(1), I(2)]), ALit("int", [I(3), I(4), I(5)])])), Let("r", "array<int>", Call("at", V("g"), I(1))),
+                                                   Println(Call("at", V("r"), I(2))), Println(Call("array_length", V("g")))])
+    out["native_array_literal_union"] = P([Let("a", "Shape", ULit("Shape.Circle", [("r", I(3))])), Let("us", "array<Shape>", ALit("Shape", [V("a"), ULit("Shape.Empty", [])])), Println(Call("array_length", V("us")))])
+    # the same arrays built with array_push (these build and agree: the control)
+    out["array_push_struct_control"] = P([Let("ps", AP, ALit("Point", []), True), For("i", I(0), I(3), [Set("ps", Call("array_push", V("ps"), SLit("Point", [("x", V("i")), ("y", Bin("*", V("i"), V("i")))])))]),
+                                          Let("p", "Point", Call("at", V("ps"), I(2))), Println(Field(V("p"), "y")), Ex(Call("array_set", V("ps"), I(0), pt(7, 8))), Let("q", "Point", Call("at", V("ps"), I(0))), Println(Field(V("q"), "x"))])
+    # ---- F-gx-native-tuple-type-positions
+    out["native_tuple_param"] = P([Println(Call("second", TLit([I(1), S("abc")])))], [Func("second", [("p", TP)], "int", [Println(TIdx(V("p"), 1)), Ret(Bin("+", TIdx(V("p"), 0), Call("str_length", TIdx(V("p"), 1))))])])
+    out["native_tuple_field"] = P([Let("h", "TupHolder", SLit("TupHolder", [("k", I(1)), ("pr", TLit([I(5), S("five")]))])), Println(TIdx(Field(V("h"), "pr"), 1)), Println(Field(V("h"), "k"))],
+                                  structs=[("TupHolder", [("k", "int"), ("pr", TP)])])
+    out["native_tuple_global"] = P([Println(TIdx(V("gt"), 0)), Set("gt", TLit([I(2), S("u")])), Println(TIdx(V("gt"), 1))], globals_=[("gt", TP, True, TLit([I(1), S("t")]))])
+    out["native_tuple_array"] = P([Let("ts", "array<(int, string)>", ALit(TP, []), True), Set("ts", Call("array_push", V("ts"), TLit([I(1), S("a")]))), Println(Call("array_length", V("ts")))])
+    # ---- F-gx-native-global-struct
+    out["native_global_struct"] = P([Println(Field(V("gp"), "x")), Set("gp", SLit("Point", [("x", Bin("+", Field(V("gp"), "x"), I(1))), ("y", Field(V("gp"), "y"))])), Println(Field(V("gp"), "x")), Println(Field(V("gq"), "y"))],
+                                    globals_=[("gp", "Point", True, pt(1, 2)), ("gq", "Point", False, pt(5, 6))])
+    # ---- F-gx-map-changes-element-type
+    ln = Func("len_of", [("s", "string")], "int", [Ret(Call("str_length", V("s")))])
+    tos = Func("tag_of", [("x", "int")], "string", [Ret(Bin("+", S("#"), its(V("x"))))])
+    out["map_string_to_int"] = P([Let("ss", "array<string>", ALit("string", [S("a"), S("bb"), S("ccc")])), Let("ls", "array<int>", Call("map", V("ss"), V("len_of"))), Println(Call("at", V("ls"), I(2))), Println(Call("array_length", V("ls")))], [ln])
+    out["map_int_to_string"] = P([Let("xs", "array<int>", ALit("int", [I(1), I(2)])), Let("ts", "array<string>", Call("map", V("xs"), V("tag_of"))), Println(Call("at", V("ts"), I(1)))], [tos])
+    # ---- F-gx-vm-enum-to-string-empty
+    out["vm_enum_to_string"] = P([Println(its(Enum("Color.Blue"))), Let("c", "Color", Enum("Color.Green")), Println(its(V("c"))), Println(Call("cast_string", Enum("Lvl.Mid"))), Println(Bin("+", S("lvl="), Call("to_string", Enum("Lvl.High"))))])
+    # ---- F-gx-native-compare-two-enum-types
+    out["native_compare_two_enums"] = P([Println(Bin(">=", Enum("Color.Blue"), Enum("Lvl.Mid"))), Println(Bin("==", Enum("Lvl.Low"), Enum("Color.Red"))), Println(Bin("<", Enum("Color.Red"), Enum("Color.Blue")))])
+    # ---- F-gx-native-array-of-enums
+    out["native_array_of_enums_push"] = P([Let("cs", ACOL, ALit("Color", []), True), Set("cs", Call("array_push", V("cs"), Enum("Color.Blue"))), Set("cs", Call("array_push", V("cs"), Enum("Color.Red"))),
+                                           Println(Call("array_length", V("cs"))), Println(Call("at", V("cs"), I(0)))])
+    # ---- F-gx-native-fn-typed-let-in-match-arm
+    sq = Func("sq", [("x", "int")], "int", [Ret(Bin("*", V("x"), V("x")))])
+    out["native_fn_let_in_match_arm"] = P([Let("s", "Shape", ULit("Shape.Circle", [("r", I(3))])),
+                                           Match(V("s"), [("Shape.Circle", "c", [Let("f", "fn(int) -> int", V("sq")), Println(Call("f", Field(V("c"), "r")))]), ("Shape.Rect", "q", [Println(Field(V("q"), "w"))]), ("Shape.Empty", "e", [Println(I(0))])])], [sq])
+    out["fn_let_outside_match_control"] = P([Let("f", "fn(int) -> int", V("sq")), Println(Call("f", I(4)))], [sq])
+    # ---- evaluator: string ownership (main's body is run by the evaluator in C03 / GX)
+    tagof = Func("tagof", [("r", "Rec")], "int", [Let("s", "string", Field(V("r"), "tag")), Ret(Call("str_length", V("s")))])
+    out["interp_string_from_field_twice"] = P([Let("r", "Rec", SLit("Rec", [("tag", Bin("+", S("ab"), S("c"))), ("n", I(1))])), Println(Call("tagof", V("r"))), Println(Call("tagof", V("r"))), Println(Field(V("r"), "tag"))], [tagof])
+    second = Func("second_len", [("p", TP)], "int", [Let("s", "string", TIdx(V("p"), 1)), Ret(Call("str_length", V("s")))])
+    out["interp_string_from_tuple_twice"] = P([Let("p", TP, TLit([I(1), Bin("+", S("ab"), S("cd"))])), Println(Call("second_len", V("p"))), Println(Call("second_len", V("p"))), Println(TIdx(V("p"), 1))], [second])
+    mk = Func("mk", [("s", "string")], "Res", [Ret(ULit("Res.Ok", [("v", I(1)), ("tag", V("s"))]))])
+    out["interp_union_result_with_string"] = P([Let("r", "Res", Call("mk", Bin("+", S("ab"), S("cd")))),
+                                                Match(V("r"), [("Res.Ok", "o", [Println(Field(V("o"), "tag")), Println(Field(V("o"), "v"))]), ("Res.Bad", "b", [Println(Field(V("b"), "code"))])])], [mk])
+    out["interp_string_self_assignment"] = P([Let("s", "string", Bin("+", S("na"), S("no")), True), Set("s", V("s")), Println(V("s")), Set("gs", V("gs")), Println(V("gs"))], globals_=[("gs", "string", True, S("g"))])
+    # ---- F-gx-interp-arrays-of-non-scalars / INTERP_STATIC_ARRAYS (array_set on a dynamic array)
+    out["interp_struct_array_literal_at"] = P([Let("ps", AP, ALit("Point", [pt(1, 2), pt(3, 4)])), Println(Call("array_length", V("ps"))), Let("p", "Point", Call("at", V("ps"), I(1))), Println(Field(V("p"), "y"))])
+    out["interp_array_set_dynamic"] = P([Let("a", "array<int>", ALit("int", []), True), Set("a", Call("array_push", V("a"), I(5))), Set("a", Call("array_push", V("a"), I(6))), Ex(Call("array_set", V("a"), I(0), I(50))), Println(Call("at", V("a"), I(0))),
+                                         Let("sa", "array<string>", ALit("string", []), True), Set("sa", Call("array_push", V("sa"), S("x"))), Ex(Call("array_set", V("sa"), I(0), S("y"))), Println(Call("at", V("sa"), I(0)))])
+    # ---- F-gx-native-tuple-composite-elements
+    out["native_tuple_of_struct"] = P([Let("tp", "(Point, int)", TLit([pt(18, 20), I(3)])), Let("q", "Point", TIdx(V("tp"), 0)), Println(Field(V("q"), "y")), Println(TIdx(V("tp"), 1))])
+    out["native_tuple_in_tuple"] = P([Let("tt", "((int, string), int)", TLit([TLit([I(1), S("a")]), I(2)])), Let("ti", "(int, string)", TIdx(V("tt"), 0)), Println(TIdx(V("ti"), 1)), Println(TIdx(V("tt"), 1)),
+                                      Let("t3", "(int, string, bool)", TLit([I(1), S("b"), B(True)])), Println(TIdx(V("t3"), 2))])
+    # ---- F-gx-native-global-initialised-by-call
+    out["native_global_initialised_by_call"] = P([Println(V("gc"))], [Func("ginit", [("k", "int")], "int", [Ret(Bin("+", Bin("*", V("k"), V("k")), I(1)))])], globals_=[("gc", "int", False, Call("ginit", I(5)))])
+    # ---- F-gx-interp-for-in-array-not-implemented
+    out["interp_for_in_array"] = P([Let("a", "array<int>", ALit("int", [I(4), I(5)])), ForIn("e", V("a"), [Println(V("e"))]), Let("ss", "array<string>", ALit("string", [S("x"), S("yz")])), ForIn("s", V("ss"), [Println(Call("str_length", V("s")))]), Println(S("end"))])
+    # ---- F-gx-native-str-length-unsigned
+    out["native_str_length_unsigned"] = P([Let("s", "string", S("abc")), Println(Bin("-", Call("str_length", V("s")), I(19))), Println(Bin(">", I(128), Bin("-", Call("str_length", V("s")), I(19)))),
+                                           Let("k", "int", Call("t", I(1))), Println(Bin(">", V("k"), Bin("+", Bin("*", V("k"), I(2)), Call("str_length", S("Z9")))))])
+    # ---- F-gx-interp-substring-start-out-of-bounds (STDLIB: the empty string)
+    out["interp_substring_past_end_in_array"] = P([Let("a", "array<string>", ALit("string", [S("nano"), Call("str_substring", S(""), I(1), I(2))])), Println(Call("array_length", V("a"))), Println(Call("str_length", Call("at", V("a"), I(1))))])
     return out
